@@ -809,6 +809,7 @@ namespace riddle
             case BAR_ID:
             case AMP_ID:
             case CARET_ID:
+            case LPAREN_ID:
             case SEMICOLON_ID:
             {
                 backtrack(c_pos);
@@ -922,6 +923,7 @@ namespace riddle
         }
         case RETURN_ID:
         {
+            tk = next();
             expression *e = _expression();
             if (!match(SEMICOLON_ID))
                 error("expected ';'..");
@@ -1053,12 +1055,9 @@ namespace riddle
             }
             if (match(LPAREN_ID))
             {
-                tk = next();
                 id_token fn = is.back();
                 is.pop_back();
                 std::vector<const expression *> xprs;
-                if (!match(LPAREN_ID))
-                    error("expected '('..");
 
                 if (!match(RPAREN_ID))
                 {
